@@ -14,9 +14,10 @@
     readable C string [nm] in [h].  [reify St t] reads a forest tree as a [Tree.node] through the string heap.
     [subtree_t t pp]: the node of the forest tree [t] the path [pp] (child indices) leads to. *)
 From CJ Require Import Base Dbl Heap Forest ForestLemmas CoreDefs CoreRefineDupValue CoreLedgerGen.
-From CJ Require Import TierBridgeDefs MergeHeapDefs MergeHeapInv MergeHeapEx
-  PatchHeapDefs PatchHeapPath PatchHeapPointer PatchHeapStr PatchHeapSteps PatchHeapDetach PatchHeapEx.
-From CJ Require Tree PointerDefs PatchDefs SortSpec CoreOps.
+From CJ Require Import TierBridgeDefs TierBridgeOverwriteDefs MergeHeapDefs MergeHeapInv MergeHeapEx
+  PatchHeapDefs PatchHeapPath PatchHeapPointer PatchHeapStr PatchHeapSteps PatchHeapDetach
+  PatchHeapApplyDefs PatchHeapOps PatchHeapFinish PatchHeapApply PatchHeapEx.
+From CJ Require Tree PointerDefs PatchDefs CompareDefs SortSpec CoreOps.
 From CJ.gen Require Import Constants.
 From stdpp Require Import gmap.
 Local Open Scope Z_scope.
@@ -168,3 +169,109 @@ Theorem C16_heap_detach_nonvacuous :
     detach_post (h_str px_heap) [px_ptrs] px_doc r F' (Ok (Some (px_num 5 (Some [98; 126]), px_doc1))).
 Proof. exact px_stage2. Qed.
 Print Assumptions C16_heap_detach_nonvacuous.
+
+(** ------------------------------------------------------------------ 3./4. apply_patch: remove, add, replace, copy, move *)
+
+(** the part of [apply_patch] after "Now, just add value to path": forest [(G ++ [doc]) ++ [v]] (the value to insert
+    — a duplicate or the moved item — is the last root), the path in the string block of the patch's "path"
+    member.  EVERY exit delivers [finish_goal]: the status and the document of [PatchDefs.finish_add]; on the
+    failing exits (9: no parent / no '/', 10: index past the end, 11: not an index) the value has been deleted by
+    the [cleanup:] block; the copy of the path is released on every exit; the model never reports OOB here. *)
+Theorem C16_heap_finish_goal_is : forall h G doc v NL0 o hm vres,
+  finish_goal h G doc v NL0 o hm vres <->
+  match vres with
+  | Ok (st, doc') =>
+      exists h' docT,
+        o = Ret (st, h') /\ MInv h' (G ++ [docT]) /\ tid docT = tid doc /\
+        reify (h_str h') docT = doc' /\ KeepO h h' G /\ (NL0 -> NoLeak h' (G ++ [docT])) /\
+        (h_next hm <= h_next h')%positive
+  | _ => False
+  end.
+Proof. exact (fun h G doc v NL0 o hm vres => conj (fun H => H) (fun H => H)). Qed.
+
+Theorem C16_heap_finish : forall h G doc x dx csx pn dpn cpn pb (sp : bytes) flag,
+  MInv h ((G ++ [doc]) ++ [T x dx csx]) ->
+  T pn dpn cpn ∈ nodes G -> rd_vstr dpn = Some pb ->
+  pb ∈ h_live h -> h_str h !! pb = Some sp -> existsb (Z.eqb 0) sp = true ->
+  finish_goal h G doc (T x dx csx) (NoLeak h ((G ++ [doc]) ++ [T x dx csx]))
+    (apply_patch_finish nofail (Some (tid doc)) (Some pn) (Some x) flag h) h
+    (PatchDefs.finish_add (reify (h_str h) doc) (reify (h_str h) (T x dx csx)) (cstr sp) flag).
+Proof. exact finish_refines. Qed.
+Print Assumptions C16_heap_finish.
+
+(** the root cases *)
+Theorem C16_heap_root_remove : forall h G r dr csr,
+  MInv h (G ++ [T r dr csr]) ->
+  exists h', patch_root_remove (Some r) h = Ret (tt, h') /\ MInv h' (G ++ [T r rd_invalid []]) /\
+    (NoLeak h (G ++ [T r dr csr]) -> NoLeak h' (G ++ [T r rd_invalid []])) /\ KeepO h h' G /\ h_next h' = h_next h.
+Proof. exact root_remove_step. Qed.
+Theorem C16_heap_root_overwrite : forall h G r dr csr x dx csx,
+  MInv h ((G ++ [T r dr csr]) ++ [T x dx csx]) ->
+  exists h', patch_root_overwrite (Some r) (Some x) h = Ret (tt, h') /\ MInv h' (G ++ [T r (rd_unnamed dx) csx]) /\
+    (NoLeak h ((G ++ [T r dr csr]) ++ [T x dx csx]) -> NoLeak h' (G ++ [T r (rd_unnamed dx) csx])) /\
+    KeepO h h' G /\ h_next h' = h_next h /\
+    reify (h_str h') (T r (rd_unnamed dx) csx) = PatchDefs.unnamed (reify (h_str h) (T x dx csx)).
+Proof. exact root_overwrite_step. Qed.
+Print Assumptions C16_heap_root_overwrite.
+
+(** STAGES 3 and 4.  [apply_patch(object, patch, case_sensitive)] for the operations remove, add, replace, move,
+    copy (the opcode is whatever the patch object says, except "test"): document = last root of [G ++ [doc]], patch
+    object = a node of [G], invariant [MInv], never-failing allocator.  Whenever the value-level model returns
+    [Ok (st, doc', pt')] (it returns OOB only for a String-typed "path"/"op"/"from" member WITHOUT a string, which
+    is not a JSON value) with [st] neither 6 nor 8 (cJSON_Duplicate refusing a value nested deeper than
+    CJSON_CIRCULAR_LIMIT: that exit of cJSON_Duplicate has no heap-level statement in the C11 development), the
+    heap-level run
+      - returns normally (no memory-error outcome) with the SAME status, on EVERY exit including the malformed-patch
+        statuses 2, 3, 4, 5, 7, 9, 10, 11, 13;
+      - re-establishes the invariant for [G ++ [docT]]: [G] — hence the patch — is literally unchanged and its
+        strings keep their contents, [docT] carries the document's identity;
+      - [reify docT] is exactly the value-level document — also where the operation FAILED after damaging the
+        document (a replace whose "value" is missing has already deleted the old value: status 7);
+      - preserves [NoLeak]: whatever was detached or duplicated has been released or re-attached. *)
+Theorem C16_heap_apply_patch : forall h G doc pid dpt cpt flag,
+  MInv h (G ++ [doc]) -> T pid dpt cpt ∈ nodes G ->
+  PatchDefs.decode_patch_operation (reify (h_str h) (T pid dpt cpt)) flag <> Ok PatchDefs.TEST ->
+  match PatchDefs.apply_patch (reify (h_str h) doc) (reify (h_str h) (T pid dpt cpt)) flag with
+  | Ok (st, doc', pt') =>
+      st <> 6 -> st <> 8 ->
+      exists h' docT,
+        apply_patch nofail (Some (tid doc)) (Some pid) flag h = Ret (st, h') /\ MInv h' (G ++ [docT]) /\
+        tid docT = tid doc /\ reify (h_str h') docT = doc' /\ pt' = reify (h_str h) (T pid dpt cpt) /\
+        KeepO h h' G /\ (NoLeak h (G ++ [doc]) -> NoLeak h' (G ++ [docT])) /\ (h_next h <= h_next h')%positive
+  | _ => True
+  end.
+Proof. exact apply_patch_refines. Qed.
+Print Assumptions C16_heap_apply_patch.
+
+(** the value-level duplicate succeeds only for values nested at most CJSON_CIRCULAR_LIMIT deep *)
+Theorem C16_heap_dup_height : forall St t v,
+  PatchDefs.cJSON_Duplicate (reify St t) = Some v -> (CoreRefineDupForest.height t <= Z.to_nat c_CJSON_CIRCULAR_LIMIT)%nat.
+Proof. exact dup_height. Qed.
+
+(** non-vacuity: document {"a":[1,2],"b":{"c":3}} and ten operations (add into an array, remove a member, replace an
+    element, move onto "-", copy to a new member, replace WITHOUT value, add past the end, add onto the root, add
+    over an existing member, move into own child), each run by [vm_compute] on the concrete heap: status and
+    resulting document (read back from the heap by the structural walk, links healthy) are those of the value-level
+    model; the failing replace has removed the old value (DESIGN 11.6) *)
+Theorem C16_heap_apply_example_runs :
+  map pa_heap_result (seq 0 10) = map pa_model_result (seq 0 10) /\
+  map pa_status (seq 0 10) = map Some [0; 0; 0; 0; 0; 7; 10; 0; 0; 9].
+Proof. exact pa_runs. Qed.
+Theorem C16_heap_replace_not_atomic_observed :
+  pa_status 5 = Some 7 /\
+  pa_doc_after 5 = Some (Some (vobj None [varr (Some [97]) [vnum 2 None]; vobj (Some [98]) [vnum 3 (Some [99])]], true)).
+Proof. exact pa_replace_not_atomic. Qed.
+Theorem C16_heap_apply_nonvacuous : forall (k : nat) t,
+  tchildren pa_patches !! k = Some t ->
+  PatchDefs.decode_patch_operation (reify (h_str pa_heap) t) true <> Ok PatchDefs.TEST ->
+  MInv pa_heap (pa_G ++ [pa_doc]) /\ NoLeak pa_heap (pa_G ++ [pa_doc]) /\ t ∈ nodes pa_G /\
+  match PatchDefs.apply_patch (reify (h_str pa_heap) pa_doc) (reify (h_str pa_heap) t) true with
+  | Ok (st, doc', pt') =>
+      st <> 6 -> st <> 8 ->
+      exists h' docT,
+        apply_patch nofail (Some (tid pa_doc)) (Some (tid t)) true pa_heap = Ret (st, h') /\
+        MInv h' (pa_G ++ [docT]) /\ reify (h_str h') docT = doc' /\ NoLeak h' (pa_G ++ [docT])
+  | _ => True
+  end.
+Proof. exact pa_stage34. Qed.
+Print Assumptions C16_heap_apply_nonvacuous.
